@@ -7,6 +7,7 @@ use libfuzzer_sys::fuzz_target;
 
 fuzz_target!(|data: &[u8]| {
     if let Some(script) = fuzzdec::decode_script(data) {
+        c08::set_max_expansion(1 << 11);
         let mut st = Stats::default();
         st.frozen = true;
         // A5VERIF_FUZZ_PROP selects which property's oracle is active (default: both)
